@@ -79,3 +79,84 @@ RESULT = {}
 def run(name):
     RESULT[name] = SCENARIOS[name]()
     return RESULT[name]
+
+
+def fam_contention():
+    """Holder/waiter pairs on every sync primitive: the waiter must wait across simulated time."""
+    from happysimulator import Entity, Event, Instant, Simulation
+    from happysimulator.components.resource import Resource
+    from happysimulator.components.sync.barrier import Barrier
+    from happysimulator.components.sync.condition import Condition
+    from happysimulator.components.sync.mutex import Mutex
+    from happysimulator.components.sync.rwlock import RWLock
+    from happysimulator.components.sync.semaphore import Semaphore
+
+    class Worker(Entity):
+        def __init__(self, name, body, log):
+            super().__init__(name)
+            self.body, self.log = body, log
+
+        def handle_event(self, event):
+            yield from self.body(self)
+            self.log.append((self.name, self.now.nanoseconds))
+
+    def pair(prim, acquire, release, hold=1.0):
+        log = []
+
+        def body(w):
+            yield from acquire(w)
+            yield hold
+            r = release(w)
+            if r:
+                yield 0.0, r
+        ws = [Worker(f"w{i}", body, log) for i in range(3)]
+        sim = Simulation(entities=[prim, *ws], end_time=Instant.from_seconds(30))
+        for i, w in enumerate(ws):
+            sim.schedule(Event(time=Instant.from_seconds(0.25 * i), event_type="go", target=w))
+        sim.run()
+        return log
+
+    out = {}
+    m = Mutex("m")
+    out["mutex"] = pair(m, lambda w: m.acquire(w.name), lambda w: m.release())
+    s = Semaphore("s", 1)
+    out["semaphore"] = pair(s, lambda w: s.acquire(1), lambda w: s.release(1))
+    rw = RWLock("rw")
+    out["rwlock_w"] = pair(rw, lambda w: rw.acquire_write(), lambda w: rw.release_write())
+    b = Barrier("b", 3)
+    out["barrier"] = pair(b, lambda w: b.wait(), lambda w: None, hold=0.1)
+    res = Resource("r", 1)
+    grants = {}
+
+    def racq(w):
+        g = yield res.acquire(1)
+        grants[w.name] = g
+
+    out["resource"] = pair(res, racq, lambda w: grants[w.name].release())
+    lock = Mutex("cl")
+    cond = Condition("c", lock)
+    log = []
+
+    def waiter(w):
+        yield from lock.acquire(w.name)
+        yield from cond.wait()
+        r = lock.release()
+        if r:
+            yield 0.0, r
+
+    def notifier(w):
+        yield 1.0
+        yield from lock.acquire(w.name)
+        ev = cond.notify_all()
+        r = lock.release()
+        yield 0.0, (ev or []) + (r or [])
+    ws = [Worker("cw", waiter, log), Worker("cn", notifier, log)]
+    sim = Simulation(entities=[lock, cond, *ws], end_time=Instant.from_seconds(30))
+    for w in ws:
+        sim.schedule(Event(time=Instant.Epoch, event_type="go", target=w))
+    sim.run()
+    out["condition"] = log
+    return out
+
+
+SCENARIOS["fam_contention"] = fam_contention
